@@ -239,14 +239,21 @@ func runC08(c *Ctx) {
 	}
 	c.W = w
 	ns := g.Range(3, 6)
-	tc := TrafficCfg{NSess: ns, OpsPerSess: g.Range(8, 24)}
+	// half of the runs have slow readers (stall, sleep, resume; tiny queues):
+	// what such a session receives may have gaps, but never a reordering
+	slow := g.Bool()
+	tc := TrafficCfg{NSess: ns, OpsPerSess: g.Range(8, 24), Stalls: slow}
 	ops := GenTraffic(g, tc)
 	c.Res.NOps = len(ops)
 	c.Res.Sample = opsSample(ops, c, 0, 30)
 	c.Res.Shape = fmt.Sprintf("%x", hashStr(c.Res.Sample)^c.Spec.SchedSeed)
 	var clients []*TClient
 	for i := 0; i < ns; i++ {
-		s := NewAnySess(c, w, g, fmt.Sprintf("s%d", i), "r1", 64, nil)
+		qsize := 64
+		if slow && g.Bool() {
+			qsize = g.Range(1, 4)
+		}
+		s := NewAnySess(c, w, g, fmt.Sprintf("s%d", i), "r1", qsize, nil)
 		cl := NewTClient(s, []int{BehEcho, BehProgress, BehProgress, BehError}[g.Intn(4)], 0)
 		if !s.Join() {
 			c.Res.Tooling = "traffic session could not join"
@@ -256,9 +263,24 @@ func runC08(c *Ctx) {
 	}
 	RunTraffic(c, clients, ops, 0)
 	simrt.WaitQuiescent("traffic-done")
+	for _, cl := range clients {
+		cl.Resume()
+	}
 	time.Sleep(2 * time.Minute)
 	simrt.WaitQuiescent("settled")
-	CheckOrdering(c, clients)
+	lossy := map[*TClient]bool{}
+	for i, op := range ops {
+		if op.Kind == tStall && c.Kept(i) {
+			lossy[clients[op.Sess]] = true
+			c.Fault("client_stall")
+		}
+	}
+	for _, cl := range clients {
+		if DroppedTo(w, cl.ID) > 0 {
+			lossy[cl] = true
+		}
+	}
+	CheckOrderingLossy(c, clients, lossy)
 	if c.S.MultiEnabled > 0 {
 		c.Res.NonTrivial = true
 	}
